@@ -334,6 +334,10 @@ fn pie_main(args: &[String]) {
       if let Err(f) = run_violation(&prog, &h, expect, prop, ob) { emit(&f, format!("pie-case --violation {}", ob), format!("program {:?} history {:?}", prog, h)); found += 1; }
     }
   }
+  if only_index.is_none() || args.iter().any(|a| a == "--stampless") {
+    ran += 1;
+    if let Err(f) = stampless_checkers() { emit(&f, "pie-case --stampless --index 4000000000".to_string(), "checkers with a zero-sized stamp that decide on the current state alone".to_string()); found += 1; }
+  }
   if only_index.is_none() || args.iter().any(|a| a == "--twin-resources") {
     ran += 1;
     if let Err(f) = twin_resources() { emit(&f, "pie-case --twin-resources --index 4000000000".to_string(), "two resource types with identical fields, hash and debug text".to_string()); found += 1; }
